@@ -8,14 +8,19 @@ PROP = "C06"
 COUNT = {"quick": 1500, "thorough": 10000, "search": 4000}
 PARALLEL = True
 REL = "cryocat/geom.py"
-RULE = ("three case families. pair: batches of 1..24 (thorough: ..200) orientation triples (a,b,c) + a common rotation g, rows drawn from "
-        "random / near-identical (1e-9..10 deg apart, log-uniform) / same rotation written as a different Euler triple / exactly 180 deg apart / gimbal lock "
-        "theta in {0,180} / the 24 cube rotations (thorough: all 576 ordered pairs) / the 45-degree Euler lattice; given to angular_distance, "
-        "cone_distance, inplane_distance, cone_inplane_distance, compare_rotations as ndarray or as scipy Rotation (single or batch). "
-        "normals: batches of 1..500 Euler triples through euler_angles_to_normals (also a single 1-D triple). n2e: batches of normals of length "
-        "1e-100..1e100 incl. +-x,+-y,+-z, y=0<x, signed zeros, through normals_to_euler_angles (ndarray or DataFrame, zxz or zzx). "
-        "non-trivial = pair case with >=2 distinct structured row kinds or n>=2; normals case with n>=2; n2e case containing an axis-aligned or "
-        "half-plane normal; distinct = distinct case content")
+RULE = ("case families. pair: batches of 1..24 (thorough: ..200; dedicated batches of 48..160) orientation triples (a,b,c) + a common rotation g, rows drawn from "
+        "random / near-identical (1e-9..10 deg apart, log-uniform) / the SAME rotation written as another Euler triple (other quaternion sign, theta outside [0,180], "
+        "gimbal-lock equivalents) / exactly 180 deg apart / z-axes exactly antipodal / gimbal lock theta in {0,180} / the 24 cube rotations (thorough: all 576 ordered "
+        "pairs) / the 45-degree Euler lattice (theta up to 360); given to angular_distance, cone_distance, inplane_distance, cone_inplane_distance and to "
+        "compare_rotations with EVERY rotation_type (all, angular_distance, cone_distance, in_plane_distance, one unsupported string) as ndarray or scipy Rotation "
+        "(single or batch); in ~30 % of the cases every optional keyword is omitted (library defaults), otherwise given explicitly. "
+        "seq: 2-3 such calls in one process on the SAME caller-owned ndarrays, rewritten in place between the calls (or the same second argument with a new first one); "
+        "every step judged like a first call; all caller-owned arrays are compared before/after every library call. mismatch: batches of different size. "
+        "normals: batches of 1..500 Euler triples (theta also outside [0,180]) through euler_angles_to_normals (also a single 1-D triple). n2e: batches of normals of length "
+        "1e-300..1e300 incl. +-x,+-y,+-z, y=0<x, signed zeros, integer directions at extreme lengths, zero vectors among valid rows, through normals_to_euler_angles "
+        "(ndarray or DataFrame; output_order zxz, zzx or omitted). "
+        "non-trivial = pair case with >=2 distinct structured row kinds (or >=48 rows); normals case with n>=2; n2e case containing an axis-aligned or "
+        "half-plane normal; every seq / mismatch case; distinct = distinct case content")
 ASSUMPTIONS = [
     "scipy Rotation.from_euler('zxz', degrees=True) is Rz(psi)Rx(theta)Rz(phi) and as_quat is its unit quaternion (scalar last): probed every run "
     "against the Lean model qzxz/toM3 (|q_scipy . q_model| within 1e-14 of 1, matrix within 1e-14)",
@@ -26,19 +31,27 @@ ASSUMPTIONS = [
     "distance) for pairs closer than 0.1 deg and 1e-9 deg otherwise",
     "as_euler(from_euler(x)) returns a valid triple of the same rotation (phi of it is what inplane_distance uses); phi equals the input phi for "
     "canonical non-gimbal inputs (probed)",
+    "'in-plane distance vanishes for equal orientations' rests on as_euler being a function of the rotation only: independent of the sign of the quaternion and "
+    "of the Euler triple the rotation was built from (probed every run, 1e-9 deg); required of the code with 1e-9 deg (conditioned by 1/sin(theta) near gimbal lock)",
+    "the theorems are over ordered fields / the reals; binary64 agrees only while x*x+y*y+z*z of a normal is a normal double: outside (|n| > ~1.3e154 or < ~1.5e-154) "
+    "normals_to_euler_angles really violates 'normals of any length' (known finding C06-K1, theorem n2e_scale_invariant is the clause it breaks)",
+    "a zero vector has no direction: rows with a zero normal are outside the statement (code and model both give NaN there; the other rows of the batch are judged)",
 ]
-TRUSTED = ["scipy.spatial.transform.Rotation (from_euler/as_quat/as_euler/apply/*): modelled, probed each run", "libm (acos, atan2, sqrt, cos, sin)"]
-LEVEL_TEXT = ("Lean 4 theorems about an executable quaternion/matrix model of geom.angular_distance, cone_distance, inplane_distance, "
+TRUSTED = ["scipy.spatial.transform.Rotation (from_euler/as_quat/as_euler/apply/*/magnitude): modelled, probed each run", "libm (acos, atan2, sqrt, cos, sin)"]
+LEVEL_TEXT = ("Lean 4 theorems about an executable quaternion/matrix model of geom.angular_distance, cone_distance, inplane_distance, compare_rotations, "
               "euler_angles_to_normals and normals_to_euler_angles: over any commutative ring the quaternion dot product is symmetric and "
               "invariant under a common unit factor on either side, toM3 is multiplicative and maps the zxz quaternion to the zxz matrix; over "
-              "the reals (Real.arccos) the distance lies in [0,180], is symmetric, is 0 exactly for equal rotations, is invariant under a common "
-              "rotation on either side, equals arccos((trace(R1^T R2)-1)/2) and satisfies the triangle inequality; cone distance = arccos of the "
-              "dot of the two z-axis images; in-plane distance in [0,180] and 0 for equal angles; row-wise normals are unit vectors equal to the "
-              "z-axis image for any batch size; normals_to_euler z-axis = n/|n|. Tied to the source by regenerated expression anchors and a "
-              "differential run of the real functions against the driver executing the same definitions at Float")
+              "the reals (Real.arccos) the distance lies in [0,180] (the clamp makes that unconditional), is symmetric, is 0 exactly for equal rotations, is invariant "
+              "under a common rotation on either side, equals arccos((trace(R1^T R2)-1)/2) and satisfies the triangle inequality; cone distance = arccos of the "
+              "dot of the two z-axis images; in-plane distance in [0,180], 0 for equal angles and <= e+2tol for angles e apart; every rotation_type of compare_rotations "
+              "returns the primitive of its name, anything else is rejected; row-wise normals: one unit vector per orientation, each from its own row, equal to the "
+              "z-axis image for any batch size; normals_to_euler z-axis = n/|n| and independent of |n|. Tied to the source by normalised whole-body dumps of all nine "
+              "functions (defaults, every statement in order, locals alpha-normalised), regenerated dispatch tables the model executes, and a differential run of the "
+              "real functions against the driver executing the same definitions at Float")
 LEVEL_NOTE = ("trusted: Lean kernel; scipy Rotation and libm (modelled + probed, not verified); float comparisons use stated tolerances; "
-              "translator anchors are normalised source expressions")
-TECHNIQUE = "Lean 4 proof (ring identities on quaternions, Mathlib real analysis for arccos/triangle inequality) + regenerated expression anchors + differential correspondence at Float"
+              "translator anchors are normalised statement dumps; spec findings are decided by the Lean checker checkMetric / zaxisOfEuler or by scipy-only evaluations "
+              "(relative-rotation magnitude, angle between z-axis images) that use neither the code under test nor the model")
+TECHNIQUE = "Lean 4 proof (ring identities on quaternions, Mathlib real analysis for arccos/triangle inequality) + regenerated whole-body anchors and dispatch tables + differential correspondence at Float"
 DESIGN_REF = "DESIGN.md section 4, C06; Appendix A.2"
 
 DEG_NEAR = 0.1        # below this model distance the loose slack applies
@@ -49,82 +62,223 @@ TOL_VEC = 1e-12
 
 
 # ------------------------------------------------------------------ translator
-def _assign(fn, target, nth=0):
-    k = 0
-    for n in ast.walk(fn):
-        if isinstance(n, (ast.Assign, ast.AugAssign)):
-            tgts = n.targets if isinstance(n, ast.Assign) else [n.target]
-            if any(ast.unparse(t) == target for t in tgts):
-                if k == nth:
-                    if isinstance(n, ast.AugAssign):
-                        return type(n.op).__name__ + ":" + core.norm_expr(n.value)
-                    return core.norm_expr(n.value)
-                k += 1
-    raise core.AnchorMissing(f"{fn.name}: assignment to {target} #{nth}")
+# G5: every function the model stands for is anchored by a normalised dump of its WHOLE body: one string per statement, in source order,
+# nested blocks marked by "| ", local variables alpha-normalised (v0, v1, ... by first binding), parameters and their defaults in the header.
+# So an inserted statement, a later re-assignment, an `if c_symmetry > 1` block, the isinstance dispatch, a from_euler call or a changed default
+# all change the dump (and break the `*_documented` theorem), while renaming a local variable does not.
+FUNCS = [("compare_rotations", "bodyCompare"), ("angular_distance", "bodyAngular"), ("cone_distance", "bodyCone"),
+         ("inplane_distance", "bodyInplane"), ("cone_inplane_distance", "bodyConeInplane"), ("euler_angles_to_normals", "bodyNormals"),
+         ("normals_to_euler_angles", "bodyN2e"), ("visualize_angles", "bodyVisAngles"), ("visualize_rotations", "bodyVisRot")]
+COLLAPSE = ("plot_rotations",)   # the plotting block of visualize_rotations: only "does it rebind a live name / leave the function" is kept
+
+# the DOCUMENTED values (what the theorems of Props/C06.lean state); used as the fall-back of a missing anchor so that a missing anchor
+# never silently changes what the model computes (the missing anchor itself makes `anchors_ok` fail)
+DOC = {
+    "tol": "1e-11",
+    "rotationTypeDefault": "all",
+    "outputOrderDefault": "zxz",
+    "compareBranches": [("all", ["ang", "cone", "inp"]), ("angular_distance", ["ang"]), ("cone_distance", ["cone"]), ("in_plane_distance", ["inp"])],
+    "compareElse": "raise UserInputError",
+    "n2eOrders": [("zzx", ["phi", "psi", "theta"]), ("*", ["phi", "theta", "psi"])],
+}
 
 
-def _count_assign(fn, target):
-    return sum(1 for n in ast.walk(fn) if isinstance(n, ast.Assign) and any(ast.unparse(t) == target for t in n.targets))
+def _params(fn):
+    a = fn.args
+    return ({x.arg for x in a.posonlyargs + a.args + a.kwonlyargs} | ({a.vararg.arg} if a.vararg else set()) | ({a.kwarg.arg} if a.kwarg else set()))
+
+
+def _alpha_map(fn):
+    params = _params(fn)
+    stores = [n for n in ast.walk(fn) if isinstance(n, ast.Name) and isinstance(n.ctx, (ast.Store, ast.Del)) and n.id not in params]
+    stores.sort(key=lambda n: (n.lineno, n.col_offset))
+    m = {}
+    for n in stores:
+        if n.id not in m:
+            m[n.id] = f"v{len(m)}"
+    return m
+
+
+class _Ren(ast.NodeTransformer):
+    def __init__(self, m):
+        self.m = m
+
+    def visit_Name(self, n):
+        return ast.copy_location(ast.Name(id=self.m.get(n.id, n.id), ctx=n.ctx), n)
+
+
+def _u(node, m):
+    import copy
+    return ast.unparse(_Ren(m).visit(copy.deepcopy(node)))
+
+
+def _dump_block(stmts, m, depth, fn, out, elif_=False):
+    pre = "| " * depth
+    for st in stmts:
+        if isinstance(st, ast.Expr) and isinstance(st.value, ast.Constant) and isinstance(st.value.value, str):
+            continue  # docstring
+        if isinstance(st, ast.If):
+            test = _u(st.test, m)
+            kw = "elif" if elif_ else "if"
+            elif_ = False
+            if test in COLLAPSE:
+                inner = {id(n) for s in st.body + st.orelse for n in ast.walk(s)}
+                bound = {n.id for s in st.body + st.orelse for n in ast.walk(s) if isinstance(n, ast.Name) and isinstance(n.ctx, (ast.Store, ast.Del))}
+                used_out = {n.id for n in ast.walk(fn) if isinstance(n, ast.Name) and id(n) not in inner} | _params(fn)
+                exits = sum(isinstance(n, (ast.Return, ast.Raise)) for s in st.body + st.orelse for n in ast.walk(s))
+                out.append(f"{pre}{kw} {test}: <collapsed: rebinds={sorted(m.get(x, x) for x in bound & used_out)} exits={exits}>")
+                continue
+            out.append(f"{pre}{kw} {test}:")
+            _dump_block(st.body, m, depth + 1, fn, out)
+            if len(st.orelse) == 1 and isinstance(st.orelse[0], ast.If):
+                _dump_block(st.orelse, m, depth, fn, out, elif_=True)
+            elif st.orelse:
+                out.append(f"{pre}else:")
+                _dump_block(st.orelse, m, depth + 1, fn, out)
+        elif isinstance(st, (ast.For, ast.While, ast.With, ast.Try, ast.FunctionDef, ast.ClassDef, ast.AsyncFunctionDef)):
+            out.append(pre + type(st).__name__ + ": " + _u(st, m).replace("\n", " ; "))
+        else:
+            out.append(pre + _u(st, m))
+
+
+def dump_fn(fn):
+    """normalised dump of a whole function: header with the parameter defaults, then one string per statement"""
+    m = _alpha_map(fn)
+    out = [f"def {fn.name}({ast.unparse(fn.args)})"]
+    _dump_block(fn.body, m, 0, fn, out)
+    return out
+
+
+def _assigned_exprs(fn, name):
+    return [ast.unparse(st.value) for st in ast.walk(fn) if isinstance(st, ast.Assign)
+            and any(isinstance(t, ast.Name) and t.id == name for t in st.targets)]
+
+
+def _ret_role(fn, k):
+    """which primitive the k-th element of the tuple `fn` returns holds, decided from the expression it was computed by (not from its name)"""
+    rets = [n for n in ast.walk(fn) if isinstance(n, ast.Return) and isinstance(n.value, ast.Tuple)]
+    if len(rets) != 1 or k >= len(rets[0].value.elts) or not isinstance(rets[0].value.elts[k], ast.Name):
+        raise core.AnchorMissing(f"{fn.name}: single `return (..)` of names with element {k}")
+    ex = " ; ".join(_assigned_exprs(fn, rets[0].value.elts[k].id))
+    for pat, role in (("cone_distance(", "cone"), ("inplane_distance(", "inp"), ("np.arccos(", "ang"), ("np.power(", "dist2")):
+        if pat in ex:
+            return role
+    raise core.AnchorMissing(f"{fn.name}: role of returned element {k}: {ex[:80]}")
+
+
+def _compare_table(src):
+    """(rotation_type literal, roles of the returned values) for every branch of compare_rotations, in order; the final else must raise"""
+    fn, cid, ad = src.find(REL, "compare_rotations"), src.find(REL, "cone_inplane_distance"), src.find(REL, "angular_distance")
+    roles = {}
+    for st in ast.walk(fn):
+        if not isinstance(st, ast.Assign) or len(st.targets) != 1:
+            continue
+        t, v = st.targets[0], st.value
+        if (isinstance(v, ast.Subscript) and isinstance(v.value, ast.Call) and ast.unparse(v.value.func) == "angular_distance"
+                and isinstance(v.slice, ast.Constant) and isinstance(t, ast.Name)):
+            roles[t.id] = _ret_role(ad, v.slice.value)
+        elif isinstance(v, ast.Call) and ast.unparse(v.func) == "cone_inplane_distance" and isinstance(t, ast.Tuple):
+            for i, e in enumerate(t.elts):
+                roles[e.id] = _ret_role(cid, i)
+    node = next((st for st in fn.body if isinstance(st, ast.If)), None)
+    table, els = [], None
+    while node is not None:
+        c = node.test
+        if not (isinstance(c, ast.Compare) and ast.unparse(c.left) == "rotation_type" and len(c.ops) == 1 and isinstance(c.ops[0], ast.Eq)
+                and isinstance(c.comparators[0], ast.Constant) and len(node.body) == 1 and isinstance(node.body[0], ast.Return)):
+            raise core.AnchorMissing("compare_rotations: branch `if rotation_type == <literal>: return ...`")
+        rv = node.body[0].value
+        names = [e for e in (rv.elts if isinstance(rv, ast.Tuple) else [rv])]
+        if not all(isinstance(e, ast.Name) and e.id in roles for e in names):
+            raise core.AnchorMissing(f"compare_rotations: returned value {ast.unparse(rv)}")
+        table.append((c.comparators[0].value, [roles[e.id] for e in names]))
+        if len(node.orelse) == 1 and isinstance(node.orelse[0], ast.If):
+            node = node.orelse[0]
+        else:
+            o = node.orelse
+            els = ("raise " + ast.unparse(o[0].exc.func)) if len(o) == 1 and isinstance(o[0], ast.Raise) and isinstance(o[0].exc, ast.Call) else "other"
+            node = None
+    return table, els
+
+
+def _n2e_orders(src):
+    fn = src.find(REL, "normals_to_euler_angles")
+
+    def role(name):
+        ex = " ; ".join(_assigned_exprs(fn, name)[:1])
+        if "random" in ex:
+            return "phi"
+        if "arctan2" in ex:
+            return "theta" if "sqrt" in ex else "psi"
+        raise core.AnchorMissing(f"normals_to_euler_angles: role of {name}")
+
+    def cols(stmts):
+        if len(stmts) == 1 and isinstance(stmts[0], ast.Assign) and isinstance(stmts[0].value, ast.Call) and ast.unparse(stmts[0].value.func) == "np.column_stack":
+            return [role(e.id) for e in stmts[0].value.args[0].elts]
+        raise core.AnchorMissing("normals_to_euler_angles: column_stack branch")
+    node = next((st for st in fn.body if isinstance(st, ast.If) and "output_order" in ast.unparse(st.test)), None)
+    table = []
+    while node is not None:
+        c = node.test
+        if not (isinstance(c, ast.Compare) and ast.unparse(c.left) == "output_order" and isinstance(c.ops[0], ast.Eq) and isinstance(c.comparators[0], ast.Constant)):
+            raise core.AnchorMissing("normals_to_euler_angles: `if output_order == <literal>`")
+        table.append((c.comparators[0].value, cols(node.body)))
+        if len(node.orelse) == 1 and isinstance(node.orelse[0], ast.If):
+            node = node.orelse[0]
+        else:
+            table.append(("*", cols(node.orelse)))
+            node = None
+    if not table:
+        raise core.AnchorMissing("normals_to_euler_angles: output_order dispatch")
+    return table
+
+
+def _default(fn, name):
+    a = fn.args
+    pos = a.posonlyargs + a.args
+    for arg, d in zip(pos[len(pos) - len(a.defaults):], a.defaults):
+        if arg.arg == name:
+            return ast.literal_eval(d)
+    for arg, d in zip(a.kwonlyargs, a.kw_defaults):
+        if arg.arg == name and d is not None:
+            return ast.literal_eval(d)
+    raise core.AnchorMissing(f"{fn.name}: default of {name}")
 
 
 def translate(src):
+    from fractions import Fraction
     A = src.anchor
+    f = lambda name: src.find(REL, name)
     tol = A("ANGLE_DEGREES_TOL", lambda: next(src.literal(st.value) for st in src.tree(REL).body
                                                if isinstance(st, ast.Assign) and ast.unparse(st.targets[0]) == "ANGLE_DEGREES_TOL"))
-    f = lambda name: src.find(REL, name)
-    ang = A("angular_distance:angle", lambda: _assign(f("angular_distance"), "angle", 0))
-    q1 = A("angular_distance:q1", lambda: _assign(f("angular_distance"), "q1", 0))
-    q2 = A("angular_distance:q2", lambda: _assign(f("angular_distance"), "q2", 0))
-    dist = A("angular_distance:dist", lambda: _assign(f("angular_distance"), "dist", 0))
-    cone = A("cone_distance:cone_angle", lambda: _assign(f("cone_distance"), "cone_angle", 0))
-    cpoint = A("cone_distance:point", lambda: _assign(f("cone_distance"), "point", 0))
-    cv1 = A("cone_distance:vec1", lambda: [_assign(f("cone_distance"), "vec1", 0), _assign(f("cone_distance"), "vec1", 1), _assign(f("cone_distance"), "vec1_n", 0)])
-    cv2 = A("cone_distance:vec2", lambda: [_assign(f("cone_distance"), "vec2", 0), _assign(f("cone_distance"), "vec2", 1), _assign(f("cone_distance"), "vec2_n", 0)])
-    ip = A("inplane_distance:inplane_angle", lambda: [_assign(f("inplane_distance"), "inplane_angle", 0), _assign(f("inplane_distance"), "inplane_angle", 1)])
-    ipphi = A("inplane_distance:phi", lambda: [_assign(f("inplane_distance"), "phi1", i) for i in range(3)] + [_assign(f("inplane_distance"), "phi2", i) for i in range(3)])
-    nrm = A("euler_angles_to_normals:n_length", lambda: [_assign(f("euler_angles_to_normals"), "points", 0), _assign(f("euler_angles_to_normals"), "n_length", 0),
-                                                          _assign(f("euler_angles_to_normals"), "normalized_normal_vectors", 0)])
-    n2e = A("normals_to_euler_angles:exprs", lambda: [_assign(f("normals_to_euler_angles"), "normals", 0), _assign(f("normals_to_euler_angles"), "theta", 0),
-                                                       _assign(f("normals_to_euler_angles"), "psi", 0), _assign(f("normals_to_euler_angles"), "b_idx", 0),
-                                                       _assign(f("normals_to_euler_angles"), "psi[b_idx]", 0)])
-    vis = A("visualize_rotations/angles", lambda: [_assign(f("visualize_rotations"), "starting_point", 0), _assign(f("visualize_rotations"), "new_points", 0),
-                                                   _assign(f("visualize_angles"), "rotations", 0), _assign(f("visualize_angles"), "new_points", 0)])
-    cmpr = A("compare_rotations:calls", lambda: [_assign(f("compare_rotations"), "dist_degrees", 0),
-                                                 _assign(f("compare_rotations"), "(dist_degrees_normals, dist_degrees_inplane)", 0),
-                                                 _assign(f("cone_inplane_distance"), "cone_angle", 0), _assign(f("cone_inplane_distance"), "inplane_angle", 0)])
-    def _ret_all():
-        fn = f("compare_rotations")
-        rets = [n for n in ast.walk(fn) if isinstance(n, ast.Return) and isinstance(n.value, ast.Tuple)]
-        if not rets:
-            raise core.AnchorMissing("compare_rotations: return of the 3-tuple")
-        return core.norm_expr(rets[0].value)
-    rets = A("compare_rotations:return/n2e:column_stack", lambda: [_ret_all(), _assign(f("normals_to_euler_angles"), "angles", 0), _assign(f("normals_to_euler_angles"), "angles", 1)])
-    from fractions import Fraction
-    fr = Fraction(str(tol)) if isinstance(tol, (int, float)) else Fraction(0)
+    fr = Fraction(str(tol)) if isinstance(tol, (int, float)) and not isinstance(tol, bool) else Fraction(DOC["tol"])
+    bodies = {}
+    for name, lean in FUNCS:
+        bodies[lean] = A(f"{name}:body", lambda name=name: dump_fn(f(name)))
+    ct = A("compare_rotations:branch-table", lambda: _compare_table(src))
+    table, els = ct if ct else (DOC["compareBranches"], DOC["compareElse"])
+    orders = A("normals_to_euler_angles:output_order-table", lambda: _n2e_orders(src)) or DOC["n2eOrders"]
+    rtd = A("compare_rotations:default rotation_type", lambda: _default(f("compare_rotations"), "rotation_type"))
+    ood = A("normals_to_euler_angles:default output_order", lambda: _default(f("normals_to_euler_angles"), "output_order"))
     S = core.lean_str
-    L = lambda xs: core.lean_str_list(xs if isinstance(xs, list) else [])
-    return f"""-- GENERATED by harness/props/c06.py from {REL}; do not edit
-namespace CryoCat.Gen.C06
-def anchorsOk : Bool := {"true" if src.ok else "false"}
-/-- ANGLE_DEGREES_TOL as an exact decimal fraction -/
-def angleTolNum : Nat := {fr.numerator}
-def angleTolDen : Nat := {fr.denominator}
-def angExpr : String := {S(ang or "")}
-def quatExprs : List String := {L([q1 or "", q2 or ""])}
-def dist2Expr : String := {S(dist or "")}
-def coneExpr : String := {S(cone or "")}
-def conePoint : String := {S(cpoint or "")}
-def coneVec1 : List String := {L(cv1)}
-def coneVec2 : List String := {L(cv2)}
-def inplaneExprs : List String := {L(ip)}
-def inplanePhi : List String := {L(ipphi)}
-def normalsExprs : List String := {L(nrm)}
-def n2eExprs : List String := {L(n2e)}
-def visExprs : List String := {L(vis)}
-def compareExprs : List String := {L(cmpr)}
-def returnExprs : List String := {L(rets)}
-end CryoCat.Gen.C06
-"""
+    L = lambda xs: core.lean_str_list(xs)
+    T = lambda tb: "[" + ", ".join(f"({S(str(k))}, {L(v)})" for k, v in tb) + "]"
+    lines = [f"-- GENERATED by harness/props/c06.py from {REL}; do not edit", "namespace CryoCat.Gen.C06",
+             f"def anchorsOk : Bool := {'true' if src.ok else 'false'}",
+             "/-- ANGLE_DEGREES_TOL as an exact decimal fraction -/",
+             f"def angleTolNum : Nat := {fr.numerator}", f"def angleTolDen : Nat := {fr.denominator}",
+             "/-- (rotation_type literal, which primitives the branch returns, in order); after the last branch: -/",
+             f"def compareBranches : List (String × List String) := {T(table)}",
+             f"def compareElse : String := {S(els or DOC['compareElse'])}",
+             f"def rotationTypeDefault : String := {S(rtd if isinstance(rtd, str) else DOC['rotationTypeDefault'])}",
+             "/-- (output_order literal, which quantity each output column holds); \"*\" is the else branch -/",
+             f"def n2eOrders : List (String × List String) := {T(orders)}",
+             f"def outputOrderDefault : String := {S(ood if isinstance(ood, str) else DOC['outputOrderDefault'])}",
+             "/-- normalised whole-body dumps (header with defaults, then every statement in order, locals alpha-normalised) -/"]
+    for name, lean in FUNCS:
+        lines.append(f"def {lean} : List String := {L(bodies[lean] or [])}")
+    lines.append("end CryoCat.Gen.C06")
+    return "\n".join(lines) + "\n"
 
 
 # ------------------------------------------------------------------ helpers
@@ -178,11 +332,15 @@ def _rand_euler(rng):
 
 
 def _lattice(rng):
-    return [45.0 * rng.randint(-4, 4), 45.0 * rng.randint(0, 4), 45.0 * rng.randint(-4, 4)]
+    return [45.0 * rng.randint(-4, 4), 45.0 * rng.randint(0, 8), 45.0 * rng.randint(-4, 4)]
 
 
 def _gimbal(rng):
     return [rng.uniform(-180, 180), rng.choice([0.0, 180.0, 0.0, 180.0, -0.0, 360.0, -180.0]), rng.uniform(-180, 180)]
+
+
+def _gimbal_int(rng):
+    return [float(rng.randint(-180, 180)), rng.choice([0.0, 180.0]), float(rng.randint(-180, 180))]
 
 
 def _as_euler_of(r):
@@ -203,7 +361,11 @@ def _partner(rng, a, kind):
         small = R.from_rotvec(ax * math.radians(eps))
         r = _rot(a) * small if rng.random() < 0.5 else small * _rot(a)
         return _as_euler_of(r)
-    if kind == "equal":
+    if kind == "equal":   # the SAME rotation written as another Euler triple (or with the other sign of the quaternion)
+        if a[1] in (0.0, 180.0) and rng.random() < 0.7:   # gimbal lock: only phi+psi (theta=0) / phi-psi (theta=180) matters
+            t = a[0] + a[2] if a[1] == 0.0 else a[0] - a[2]
+            u = float(rng.randint(-90, 90))
+            return [t - u, a[1], u] if a[1] == 0.0 else [t + u, a[1], u]
         k = rng.randrange(4)
         if k == 0:
             return [a[0] + 180.0, -a[1], a[2] + 180.0]
@@ -217,6 +379,12 @@ def _partner(rng, a, kind):
         half = R.from_rotvec(ax * math.pi)
         r = _rot(a) * half if rng.random() < 0.5 else half * _rot(a)
         return _as_euler_of(r)
+    if kind == "zflip":   # z-axes exactly antipodal (cone distance 180): b = a * (half turn about an axis in the xy-plane)
+        if rng.random() < 0.5:
+            return [rng.uniform(-180, 180), 180.0 - a[1], a[2] + 180.0]
+        t = rng.uniform(0, 2 * math.pi)
+        half = R.from_rotvec(np.array([math.cos(t), math.sin(t), 0.0]) * math.pi)
+        return _as_euler_of(_rot(a) * half)
     if kind == "gimbal":
         return _gimbal(rng)
     if kind == "cube":
@@ -226,12 +394,16 @@ def _partner(rng, a, kind):
     raise ValueError(kind)
 
 
-KINDS = ["random", "near", "equal", "antipodal", "gimbal", "cube", "lattice"]
+KINDS = ["random", "near", "equal", "antipodal", "zflip", "gimbal", "cube", "lattice"]
+RTYPES = ["angular_distance", "cone_distance", "in_plane_distance"]
+BOGUS = ["inplane_distance", "cone", "ALL", "", "angular", "all "]
 
 
 def _first(rng, kind):
     if kind == "gimbal" and rng.random() < 0.5:
         return _gimbal(rng)
+    if kind == "equal" and rng.random() < 0.3:
+        return _gimbal_int(rng)
     if kind == "cube":
         return list(rng.choice(cube_eulers()))
     if kind == "lattice":
@@ -239,7 +411,7 @@ def _first(rng, kind):
     return _rand_euler(rng)
 
 
-def _pair_case(rng, n, kinds=None):
+def _pair_case(rng, n, kinds=None, input=None):
     a, b, c, tags = [], [], [], []
     for _ in range(n):
         kind = rng.choice(kinds or KINDS)
@@ -249,8 +421,10 @@ def _pair_case(rng, n, kinds=None):
         ec = _partner(rng, eb if rng.random() < 0.5 else ea, kc)
         a.append(ea); b.append(eb); c.append(ec); tags.append(kind + "/" + kc)
     g = list(rng.choice(cube_eulers())) if rng.random() < 0.2 else _rand_euler(rng)
+    # G1: in ~30 % of the cases every optional keyword is OMITTED so that the library's own defaults are exercised
     return dict(kind="pair", a=_bits_rows(a), b=_bits_rows(b), c=_bits_rows(c), g=[f2b(x) for x in g], tags=tags,
-                input=rng.choice(["ndarray", "rotation"]), single=(n == 1 and rng.random() < 0.5))
+                input=input or rng.choice(["ndarray", "rotation"]), single=(n == 1 and rng.random() < 0.5),
+                explicit=rng.random() < 0.7, bogus=rng.choice(BOGUS))
 
 
 def _normals_case(rng, n):
@@ -263,7 +437,9 @@ def _normals_case(rng, n):
 
 def _normal_vec(rng):
     k = rng.random()
-    s = 10 ** rng.uniform(-3, 3) if rng.random() < 0.8 else 10 ** rng.uniform(-100, 100)
+    u = rng.random()
+    # "normals of any length": 1e-300 .. 1e300 (the squared length leaves the range of normal doubles beyond ~1e+-154)
+    s = 10 ** rng.uniform(-3, 3) if u < 0.7 else (10 ** rng.uniform(-150, 150) if u < 0.85 else 10 ** rng.choice([rng.uniform(-300, -150), rng.uniform(150, 300)]))
     z0 = rng.choice([0.0, -0.0])
     if k < 0.35:
         v = [rng.gauss(0, 1) for _ in range(3)]
@@ -276,27 +452,75 @@ def _normal_vec(rng):
         return [rng.choice([-1, 1]) * abs(rng.gauss(0, 1)) * s + (s if rng.random() < 0.5 else 0.0), z0, rng.gauss(0, 1) * s * rng.choice([0, 1])], "y0"
     if k < 0.85:  # x = 0
         return [z0, rng.gauss(0, 1) * s or s, rng.gauss(0, 1) * s * rng.choice([0, 1])], "x0"
-    if k < 0.95:  # almost along z
+    if k < 0.93:  # almost along z
         return [rng.gauss(0, 1) * s * 1e-9, rng.gauss(0, 1) * s * 1e-9, rng.choice([-1, 1]) * s], "nearz"
+    if k < 0.96:  # integer direction at an extreme length, e.g. [1,2,2]*1e160
+        v = [float(rng.randint(-3, 3)), float(rng.randint(-3, 3)), float(rng.randint(1, 3))]
+        return [x * s for x in v], "intscaled"
     return [float(rng.randint(-3, 3)), float(rng.randint(-3, 3)), float(rng.randint(1, 3))], "int"
+
+
+def _sumsq_state(v):
+    """does x*x + y*y + z*z (as numpy computes it) stay a normal double? 'ok' | 'overflow' | 'underflow'"""
+    with np.errstate(all="ignore"):
+        q = float(np.sum(np.asarray(v, dtype=float) ** 2))
+    if math.isinf(q):
+        return "overflow"
+    if q < 2.2250738585072014e-308:
+        return "underflow"
+    return "ok"
 
 
 def _n2e_case(rng, n):
     vs, tags = [], []
-    for _ in range(n):
+    zero_rows = rng.random() < 0.08 and n >= 2
+    for i in range(n):
         v, t = _normal_vec(rng)
+        v = [x if math.isfinite(x) else 1.0 for x in v]
         if all(x == 0 for x in v):
             v, t = [1.0, 0.0, 0.0], "axisx+"
         if v[0] == 0 and abs(v[1]) > 0 and t == "y0":
             t = "x0"
+        if zero_rows and i > 0 and rng.random() < 0.3:   # a zero vector has no direction: outside the statement; its row is NaN, the others must be right
+            v, t = [rng.choice([0.0, -0.0]) for _ in range(3)], "zero"
         vs.append(v); tags.append(t)
-    return dict(kind="n2e", n=_bits_rows(vs), tags=tags, order=rng.choice(["zxz", "zxz", "zzx"]), df=rng.random() < 0.3)
+    return dict(kind="n2e", n=_bits_rows(vs), tags=tags, order=rng.choice(["zxz", "zzx", "zzx", None, None]), df=rng.random() < 0.3)
 
 
 def _qmult_case(rng, n):
     p = [[rng.gauss(0, 1) for _ in range(4)] for _ in range(n)]
     q = [[rng.gauss(0, 1) for _ in range(4)] for _ in range(n)]
     return dict(kind="qmult", p=_bits_rows(p), q=_bits_rows(q))
+
+
+def _mismatch_case(rng):
+    n = rng.randint(1, 6); m = rng.choice([k for k in range(1, 8) if k != n])
+    return dict(kind="mismatch", a=_bits_rows([_rand_euler(rng) for _ in range(n)]), b=_bits_rows([_rand_euler(rng) for _ in range(m)]),
+                input=rng.choice(["ndarray", "rotation"]))
+
+
+def _seq_case(rng, maxn):
+    """G2: several library calls in ONE process on the SAME caller-owned ndarrays (overwritten in place by the caller between the calls)"""
+    u = rng.random()
+    if u < 0.6:
+        n = rng.randint(1, min(maxn, 8))
+        s1 = _pair_case(rng, n, input="ndarray"); s2 = _pair_case(rng, n, input="ndarray")
+        s1["single"] = s2["single"] = False
+        if rng.random() < 0.5:   # the same (untouched) second argument for two different first arguments
+            s2["b"] = s1["b"]; s2["tags"] = ["random/" + t.split("/")[1] for t in s2["tags"]]
+        steps = [s1, s2] + ([dict(s1)] if rng.random() < 0.3 else [])
+    elif u < 0.8:
+        n = rng.randint(1, min(maxn, 8))
+        s1 = _n2e_case(rng, n); s1["df"] = False
+        s2 = _n2e_case(rng, n) if rng.random() < 0.5 else dict(s1)
+        s2["df"] = False; s2["order"] = rng.choice([o for o in ("zxz", "zzx", None) if o != s1["order"]])
+        steps = [s1, s2]
+    else:
+        n = rng.randint(2, 12)
+        s1 = _normals_case(rng, n); s2 = _normals_case(rng, n) if rng.random() < 0.6 else dict(s1)
+        s1["oned"] = s2["oned"] = False
+        steps = [s1, s2, dict(s1)]
+    return dict(kind="seq", steps=steps)
 
 
 def generate(rng, tier, n):
@@ -306,12 +530,18 @@ def generate(rng, tier, n):
         for i in range(24):
             a = [cube[i]] * 24; b = list(cube); c = [cube[(i + 7 * j + 3) % 24] for j in range(24)]
             yield dict(kind="pair", a=_bits_rows(a), b=_bits_rows(b), c=_bits_rows(c), g=[f2b(x) for x in cube[(5 * i + 1) % 24]],
-                       tags=["cube/cube"] * 24, input="ndarray" if i % 2 else "rotation", single=False)
+                       tags=["cube/cube"] * 24, input="ndarray" if i % 2 else "rotation", single=False, explicit=bool(i % 3), bogus="cone")
     for t in range(n):
         k = rng.random()
-        if k < 0.62:
+        if k < 0.52:
             m = 1 if rng.random() < 0.12 else rng.randint(2, maxn)
             yield _pair_case(rng, m)
+        elif k < 0.56:   # many exactly antipodal z-axes / equal rotations in one batch (rare rounding events need many rows)
+            yield _pair_case(rng, rng.randint(48, 160), kinds=[rng.choice(["zflip", "zflip", "equal", "antipodal"])])
+        elif k < 0.64:
+            yield _seq_case(rng, maxn)
+        elif k < 0.66:
+            yield _mismatch_case(rng)
         elif k < 0.8:
             u = rng.random()
             m = 1 if u < 0.1 else (rng.randint(2, 10) if u < 0.6 else rng.randint(11, 500 if tier != "search" else 12))
@@ -333,21 +563,36 @@ def corpus():
 
 
 def _decode_case(c):
-    """corpus files may hold human-readable floats under *_deg / *_vec keys"""
+    """corpus files may hold human-readable floats under *_f keys"""
     c = dict(c)
     for k in ("a", "b", "c", "ang", "n", "p", "q"):
         if k + "_f" in c:
             c[k] = _bits_rows(c.pop(k + "_f"))
     if "g_f" in c:
         c["g"] = [f2b(x) for x in c.pop("g_f")]
+    if "steps" in c:
+        c["steps"] = [_decode_case(st) for st in c["steps"]]
     c.pop("comment", None)
     return c
 
 
 def shrink(case):
     k = case["kind"]
+    if k == "seq":
+        for st in case["steps"]:          # does one step fail on its own (then it is not a cross-call effect)?
+            yield st
+        if len(case["steps"]) > 2:
+            for i in range(len(case["steps"])):
+                yield dict(case, steps=case["steps"][:i] + case["steps"][i + 1:])
+        if all(st["kind"] == "pair" for st in case["steps"]) and len(case["steps"][0]["a"]) > 1:
+            for i in range(len(case["steps"][0]["a"])):
+                yield dict(case, steps=[dict(st, a=[st["a"][i]], b=[st["b"][i]], c=[st["c"][i]], tags=[st["tags"][i]]) for st in case["steps"]])
+        return
     if k == "pair":
         n = len(case["a"])
+        if n > 8:
+            for sl in (slice(0, n // 2), slice(n // 2, n)):
+                yield dict(case, a=case["a"][sl], b=case["b"][sl], c=case["c"][sl], tags=case["tags"][sl], single=False)
         if n > 1:
             for i in range(n):
                 yield dict(case, a=[case["a"][i]], b=[case["b"][i]], c=[case["c"][i]], tags=[case["tags"][i]], single=False)
@@ -381,7 +626,7 @@ def shrink(case):
         else:
             v = [b2f(x) for x in case["n"][0]]
             m = max(abs(x) for x in v)
-            s = [float(round(x / m)) for x in v]
+            s = [float(round(x / m)) for x in v] if m > 0 else v
             if s != v and any(s):
                 yield dict(case, n=[[f2b(x) for x in s]])
             if case.get("df"):
@@ -395,73 +640,219 @@ def shrink(case):
 
 
 # ------------------------------------------------------------------ implementation
-def run_impl(case):
-    import warnings
-    warnings.filterwarnings("ignore")
-    from cryocat import geom
+def _exc_obs(e):
+    """G4: an exception is attributed to cryoCAT only when its traceback has a frame inside /cryocat/"""
+    import traceback, os
+    where = ""
+    for fr in reversed(traceback.extract_tb(e.__traceback__)):
+        if "/cryocat/" in fr.filename.replace("\\", "/"):
+            where = f"{os.path.basename(fr.filename)}:{fr.lineno}"
+            break
+    return dict(error=f"{type(e).__name__}: {str(e)[:200]}", etype=type(e).__name__, where=where, in_cryocat=bool(where))
+
+
+def _desc(x):
+    """G3: python type / dtype / rank of what the library returned"""
+    if x is None:
+        return "None"
+    if isinstance(x, np.ndarray):
+        return f"ndarray:{x.dtype}:{x.ndim}d"
+    if isinstance(x, tuple):
+        return "tuple(" + ",".join(_desc(e) for e in x) + ")"
+    if isinstance(x, list):
+        return "list[" + ",".join(sorted({_desc(e) for e in x})) + "]"
+    return type(x).__name__
+
+
+def _numeric(x):
+    a = np.asarray(x)
+    return a.dtype.kind in "fiub"
+
+
+class _Guard:
+    """runs the library calls of one case: catches exceptions per call (G4), records the returned types (G3) and compares every
+    caller-owned ndarray before/after each call (G2); a changed array is recorded and restored so that later calls see the intended input"""
+
+    def __init__(self, out, arrays):
+        self.out, self.arrays = out, arrays
+        out.setdefault("types", {}); out.setdefault("errors", {}); out.setdefault("mutated", []); out.setdefault("nonnumeric", [])
+
+    def call(self, key, fn):
+        import io, contextlib
+        snaps = {k: v.copy() for k, v in self.arrays.items()}
+        buf = io.StringIO()
+        try:
+            with contextlib.redirect_stdout(buf):
+                r = fn()
+            self.out["types"][key] = _desc(r)
+        except Exception as e:
+            self.out["errors"][key] = _exc_obs(e)
+            r = None
+        if buf.getvalue():
+            self.out.setdefault("printed", {})[key] = buf.getvalue()[:120]
+        for k, v in self.arrays.items():
+            if v.shape != snaps[k].shape or v.tobytes() != snaps[k].tobytes():
+                self.out["mutated"].append(f"{key}:{k}")
+                v[...] = snaps[k]
+        return r
+
+    def bits(self, key, val):
+        """numeric observation as bit patterns; text/object values are recorded, never coerced"""
+        if val is None:
+            return None
+        if not _numeric(val):
+            self.out["nonnumeric"].append(f"{key}: {_desc(val)} {str(np.asarray(val).ravel()[:3].tolist())[:60]}")
+            return None
+        return _bl(val)
+
+
+def _shared(bufs, role, vals):
+    """G2: the caller-owned array of this role; re-used (overwritten in place) when an earlier step left one of the same shape"""
+    if bufs is None:
+        return np.array(vals, dtype=float)
+    key = (role, vals.shape)
+    if key in bufs:
+        bufs[key][...] = vals
+    else:
+        bufs[key] = np.array(vals, dtype=float)
+    return bufs[key]
+
+
+def _run_pair(case, geom, bufs=None):
+    A, B, C = (_shared(bufs, r, _floats(case[r])) for r in ("a", "b", "c"))
+    g = [b2f(x) for x in case["g"]]
+    arrays = dict(a=A, b=B, c=C)
+    if case.get("single"):
+        A, B, C = A[0], B[0], C[0]
+    rA, rB, rC, rG = _rot(A), _rot(B), _rot(C), _rot(g)
+    iA, iB, iC = (A, B, C) if case["input"] == "ndarray" else (rA, rB, rC)
+    explicit = case.get("explicit", False)
+    kw = dict(convention="zxz", degrees=True, c_symmetry=1) if explicit else {}
+    kc = dict(c_symmetry=1) if explicit else {}
+    out = {}
+    G = _Guard(out, arrays)
+    r = G.call("ab", lambda: geom.angular_distance(iA, iB, **kw))
+    two = isinstance(r, tuple) and len(r) == 2
+    out["ab"], out["dist_ab"] = (G.bits("ab", r[0]), G.bits("dist_ab", r[1])) if two else (None, None)
+    for key, x, y in (("ba", iB, iA), ("ac", iA, iC), ("bc", iB, iC), ("aa", iA, iA), ("l", rG * rA, rG * rB), ("r", rA * rG, rB * rG)):
+        r = G.call(key, lambda: geom.angular_distance(x, y, **kw))
+        out[key] = G.bits(key, r[0]) if isinstance(r, tuple) and len(r) == 2 else None
+    out["cone_ab"] = G.bits("cone_ab", G.call("cone_ab", lambda: geom.cone_distance(rA, rB)))
+    out["cone_ba"] = G.bits("cone_ba", G.call("cone_ba", lambda: geom.cone_distance(rB, rA)))
+    out["inp_ab"] = G.bits("inp_ab", G.call("inp_ab", lambda: geom.inplane_distance(rA, rB, **kw)))
+    out["inp_aa"] = G.bits("inp_aa", G.call("inp_aa", lambda: geom.inplane_distance(rA, rA, **kw)))
+    ci = G.call("ci", lambda: geom.cone_inplane_distance(iA, iB, **kw))
+    two = isinstance(ci, tuple) and len(ci) == 2
+    out["ci_cone"], out["ci_inp"] = (G.bits("ci_cone", ci[0]), G.bits("ci_inp", ci[1])) if two else (None, None)
+    # compare_rotations: every rotation_type, the keyword omitted (default) or given, and an unsupported value
+    cr = G.call("cr_all", (lambda: geom.compare_rotations(iA, iB, rotation_type="all", **kc)) if explicit else (lambda: geom.compare_rotations(iA, iB)))
+    three = isinstance(cr, tuple) and len(cr) == 3
+    out["cr_all"] = [G.bits(f"cr_all[{i}]", np.atleast_1d(cr[i])) for i in range(3)] if three else None
+    for t in RTYPES:
+        r = G.call("cr_" + t, lambda: geom.compare_rotations(iA, iB, rotation_type=t, **kc))
+        out["cr_" + t] = G.bits("cr_" + t, np.atleast_1d(r)) if r is not None and not isinstance(r, tuple) else None
+    r = G.call("cr_bogus", lambda: geom.compare_rotations(iA, iB, rotation_type=case.get("bogus", "cone"), **kc))
+    out["cr_bogus"] = out["errors"].pop("cr_bogus", None) or dict(returned=out["types"].get("cr_bogus"))
+    # observations of the library services the model relies on / independent evaluations of the statement (scipy only)
+    out["phiA"] = _bl(np.array(rA.as_euler("zxz", degrees=True), ndmin=2)[:, 0])
+    out["phiB"] = _bl(np.array(rB.as_euler("zxz", degrees=True), ndmin=2)[:, 0])
+    out["mag"] = _bl(np.degrees(np.atleast_1d((rA.inv() * rB).magnitude())))
+    zA = np.array(rA.apply([0, 0, 1.0]), ndmin=2); zB = np.array(rB.apply([0, 0, 1.0]), ndmin=2)
+    out["zang"] = _bl(np.degrees(np.arctan2(np.linalg.norm(np.cross(zA, zB), axis=1), np.sum(zA * zB, axis=1))))
+    out["qA"] = _bits_rows(np.array(rA.as_quat(), ndmin=2))
+    out["qGA"] = _bits_rows(np.array((rG * rA).as_quat(), ndmin=2))
+    out["qAG"] = _bits_rows(np.array((rA * rG).as_quat(), ndmin=2))
+    return out
+
+
+def _run_normals(case, geom, bufs=None):
+    ang = _shared(bufs, "ang", _floats(case["ang"]))
+    arg = ang[0] if case.get("oned") else ang
+    out = {}
+    G = _Guard(out, dict(angles=ang))
+    res = G.call("normals", lambda: geom.euler_angles_to_normals(arg))
+    z = np.array(_rot(_floats(case["ang"])).apply([0, 0, 1.0]), ndmin=2)
+    out["z"] = _bits_rows(z)
+    if res is None or not _numeric(res):
+        if res is not None:
+            out["nonnumeric"].append(f"normals: {_desc(res)}")
+        out["shape"], out["rows"] = [], []
+        return out
+    res = np.asarray(res)
+    out["shape"] = list(res.shape)
+    out["rows"] = _bits_rows(res.reshape(-1, 3)) if res.ndim == 2 and res.shape[1] == 3 else []
+    return out
+
+
+def _run_n2e(case, geom, bufs=None):
+    import pandas as pd
+    nv = _shared(bufs, "n", _floats(case["n"]))
+    arg = pd.DataFrame(nv, columns=["x", "y", "z"]) if case.get("df") else nv
+    if case.get("df"):  # extra columns in another order must not matter
+        arg = arg.assign(extra=1.0)[["z", "extra", "y", "x"]]
+    order = case.get("order", "zxz")
+    out = {}
+    G = _Guard(out, dict(normals=nv))
+    with np.errstate(all="ignore"):
+        res = G.call("n2e", (lambda: geom.normals_to_euler_angles(arg)) if order is None else (lambda: geom.normals_to_euler_angles(arg, output_order=order)))
+    if res is None or not _numeric(res):
+        if res is not None:
+            out["nonnumeric"].append(f"n2e: {_desc(res)}")
+        out["shape"], out["ang"] = [], []
+        return out
+    res = np.asarray(res)
+    out["shape"] = list(res.shape)
+    if res.ndim != 2 or res.shape != (len(nv), 3):
+        out["ang"] = []
+        return out
+    res = res.astype(float)
+    out["raw"] = _bits_rows(res)
+    # DOCUMENTED column order: "zzx" is (phi, psi, theta), everything else (phi, theta, psi)
+    zxz = res if order != "zzx" else res[:, [0, 2, 1]]
+    ok = ~np.isnan(zxz).any(axis=1)
+    z = np.full((len(nv), 3), np.nan)
+    if ok.any():
+        z[ok] = np.array(_rot(zxz[ok]).apply([0, 0, 1.0]), ndmin=2)
+    out["ang"], out["z"] = _bits_rows(zxz), _bits_rows(z)
+    return out
+
+
+def _run_mismatch(case, geom):
+    A, B = _floats(case["a"]), _floats(case["b"])
+    iA, iB = (A, B) if case["input"] == "ndarray" else (_rot(A), _rot(B))
+    out = {}
+    G = _Guard(out, dict(a=A, b=B))
+    r = G.call("mismatch", lambda: geom.angular_distance(iA, iB))
+    out["returned"] = _desc(r) if "mismatch" not in out["errors"] else None
+    return out
+
+
+def _run_one(case, geom, bufs=None):
     k = case["kind"]
     if k == "pair":
-        A, B, C = _floats(case["a"]), _floats(case["b"]), _floats(case["c"])
-        g = [b2f(x) for x in case["g"]]
-        if case.get("single"):
-            A, B, C = A[0], B[0], C[0]
-        rA, rB, rC, rG = _rot(A), _rot(B), _rot(C), _rot(g)
-        iA, iB, iC = (A, B, C) if case["input"] == "ndarray" else (rA, rB, rC)
-        out = {}
-        r = geom.angular_distance(iA, iB)
-        out["ab"], out["dist_ab"] = _bl(r[0]), _bl(r[1])
-        out["ba"] = _bl(geom.angular_distance(iB, iA)[0])
-        out["ac"] = _bl(geom.angular_distance(iA, iC)[0])
-        out["bc"] = _bl(geom.angular_distance(iB, iC)[0])
-        out["aa"] = _bl(geom.angular_distance(iA, iA)[0])
-        out["l"] = _bl(geom.angular_distance(rG * rA, rG * rB)[0])
-        out["r"] = _bl(geom.angular_distance(rA * rG, rB * rG)[0])
-        out["cone_ab"] = _bl(geom.cone_distance(rA, rB))
-        out["cone_ba"] = _bl(geom.cone_distance(rB, rA))
-        out["inp_ab"] = _bl(geom.inplane_distance(rA, rB))
-        out["inp_aa"] = _bl(geom.inplane_distance(rA, rA))
-        ci = geom.cone_inplane_distance(iA, iB)
-        out["ci_cone"], out["ci_inp"] = _bl(ci[0]), _bl(ci[1])
-        cr = geom.compare_rotations(iA, iB)
-        out["cr"] = [_bl(np.atleast_1d(cr[0])), _bl(cr[1]), _bl(cr[2])]
-        out["cr_ang"] = _bl(np.atleast_1d(geom.compare_rotations(iA, iB, rotation_type="angular_distance")))
-        # observations of the library services the model relies on
-        out["phiA"] = _bl(np.array(rA.as_euler("zxz", degrees=True), ndmin=2)[:, 0])
-        out["phiB"] = _bl(np.array(rB.as_euler("zxz", degrees=True), ndmin=2)[:, 0])
-        out["mag"] = _bl(np.degrees(np.atleast_1d((rA.inv() * rB).magnitude())))
-        zA = np.array(rA.apply([0, 0, 1.0]), ndmin=2); zB = np.array(rB.apply([0, 0, 1.0]), ndmin=2)
-        out["zang"] = _bl(np.degrees(np.arctan2(np.linalg.norm(np.cross(zA, zB), axis=1), np.sum(zA * zB, axis=1))))
-        out["qA"] = _bits_rows(np.array(rA.as_quat(), ndmin=2))
-        out["qGA"] = _bits_rows(np.array((rG * rA).as_quat(), ndmin=2))
-        out["qAG"] = _bits_rows(np.array((rA * rG).as_quat(), ndmin=2))
-        return out
+        return _run_pair(case, geom, bufs)
     if k == "normals":
-        ang = _floats(case["ang"])
-        arg = ang[0] if case.get("oned") else ang
-        res = geom.euler_angles_to_normals(arg)
-        res = np.asarray(res, dtype=float)
-        z = np.array(_rot(ang).apply([0, 0, 1.0]), ndmin=2)
-        return dict(shape=list(res.shape), rows=_bits_rows(res.reshape(-1, 3)) if res.ndim == 2 and res.shape[1] == 3 else [], z=_bits_rows(z))
+        return _run_normals(case, geom, bufs)
     if k == "n2e":
-        import pandas as pd
-        nv = _floats(case["n"])
-        arg = pd.DataFrame(nv, columns=["x", "y", "z"]) if case.get("df") else nv
-        if case.get("df"):  # extra columns in another order must not matter
-            arg = arg.assign(extra=1.0)[["z", "extra", "y", "x"]]
-        res = np.asarray(geom.normals_to_euler_angles(arg, output_order=case.get("order", "zxz")), dtype=float)
-        if res.ndim != 2 or res.shape != (len(nv), 3):
-            return dict(shape=list(res.shape), ang=[])
-        zxz = res if case.get("order", "zxz") == "zxz" else res[:, [0, 2, 1]]
-        z = np.array(_rot(zxz).apply([0, 0, 1.0]), ndmin=2)
-        return dict(shape=list(res.shape), ang=_bits_rows(zxz), z=_bits_rows(z))
+        return _run_n2e(case, geom, bufs)
+    if k == "mismatch":
+        return _run_mismatch(case, geom)
     if k == "qmult":
         return dict(r=_bits_rows(geom.quaternion_mult(_floats(case["p"]), _floats(case["q"]))))
     raise ValueError(k)
 
 
-def requests(case, obs):
-    if "error" in obs:
-        return []
+def run_impl(case):
+    import warnings
+    warnings.filterwarnings("ignore")
+    from cryocat import geom
+    if case["kind"] == "seq":
+        bufs = {}
+        return dict(steps=[_run_one(st, geom, bufs) for st in case["steps"]])
+    return _run_one(case, geom)
+
+
+def _requests_one(case, obs):
     k = case["kind"]
     if k == "pair":
         a, b, c, g = case["a"], case["b"], case["c"], case["g"]
@@ -470,18 +861,37 @@ def requests(case, obs):
                 dict(op="dist", a=a, b=b, g=g, side="left"), dict(op="dist", a=a, b=b, g=g, side="right"), dict(op="dist", a=a, b=a),
                 dict(op="inplane", p1=obs["phiA"], p2=obs["phiB"]),
                 dict(op="inplane", p1=[r[0] for r in a], p2=[r[0] for r in b])]
+        nan = f2b(float("nan"))
         rows = []
         for i in range(n):
-            rows.append([obs[key][i] if i < len(obs[key]) else f2b(float("nan")) for key in ("ab", "ba", "ac", "bc", "l", "r")])
+            rows.append([obs[key][i] if obs.get(key) is not None and i < len(obs[key]) else nan for key in ("ab", "ba", "ac", "bc", "l", "r")])
         tight = [dict(op="check", obs=rows, tol=f2b(TOL_LOOSE)), dict(op="check", obs=rows, tol=f2b(TOL_TIGHT))]
-        return reqs + tight
+        cmp_ = [dict(op="compare", a=a, b=b, p1=obs["phiA"], p2=obs["phiB"],
+                     types=[("all" if case.get("explicit") else None)] + RTYPES + [case.get("bogus", "cone")])]
+        return reqs + tight + cmp_
     if k == "normals":
         return [dict(op="normals", ang=case["ang"])]
     if k == "n2e":
-        return [dict(op="n2e", n=case["n"])] + ([dict(op="zaxis", ang=obs["ang"])] if obs.get("ang") else [])
+        r = dict(op="n2e", n=case["n"])
+        if case.get("order", "zxz") is not None:
+            r["order"] = case.get("order", "zxz")
+        return [r] + ([dict(op="zaxis", ang=[[b if b2f(b) == b2f(b) else f2b(0.0) for b in row] for row in obs["ang"]])] if obs.get("ang") else [])
+    if k == "mismatch":
+        return [dict(op="distbatch", a=case["a"], b=case["b"])]
     if k == "qmult":
         return [dict(op="qmult", p=case["p"], q=case["q"])]
     return []
+
+
+def requests(case, obs):
+    if "error" in obs:
+        return []
+    if case["kind"] == "seq":
+        out = []
+        for st, o in zip(case["steps"], obs["steps"]):
+            out += _requests_one(st, o)
+        return out
+    return _requests_one(case, obs)
 
 
 def _ang_close(a_impl, a_model):
@@ -501,14 +911,58 @@ def _cone_close(a_impl, a_model):
     return abs(math.cos(math.radians(a_impl)) - math.cos(math.radians(a_model))) <= TOL_COS
 
 
-def _judge_pair(case, obs, resps):
+def _ang_is_mag(v, mag):
+    """angular distance vs the rotation angle of the relative rotation (scipy magnitude of a^-1 b: independent of code and model)"""
+    return _ang_close(v, mag) or abs(v - mag) <= (TOL_LOOSE if mag < DEG_NEAR else 1e-7)
+
+
+def _cone_is_zang(v, zang):
+    return _cone_close(v, zang) or abs(v - zang) <= 2e-6
+
+
+def _equal_tol(theta):
+    """in-plane distance of ONE rotation written as two Euler triples: 1e-9 deg; phi read back by as_euler is conditioned like 1/sin(theta)
+    (inplane_le_of_close turns a phi deviation e into a distance <= e + 2 tol), exact gimbal lock is handled by scipy's own branch"""
+    if theta % 180.0 == 0.0:
+        return TOL_TIGHT
+    return min(1e-4, max(TOL_TIGHT, 1e-12 / abs(math.sin(math.radians(theta)))))
+
+
+def _common_findings(obs, expected_errors=()):
+    """G4 exception attribution, G2 caller-owned inputs, G3 returned types -- shared by every case kind"""
     out = []
+    for key, e in obs.get("errors", {}).items():
+        if key in expected_errors:
+            continue
+        if e.get("in_cryocat"):
+            out.append(dict(kind="spec", clause="raises", detail=f"{key}: {e['error']} @{e['where']}"))
+        else:
+            out.append(dict(kind="corr", clause="harness-or-library-raised", detail=f"{key}: {e['error']} (no frame inside cryocat/)"))
+    for m in obs.get("mutated", [])[:1]:
+        out.append(dict(kind="spec", clause="input-mutated", detail=f"the call {m.split(':')[0]} changed the caller's array `{m.split(':')[1]}` in place ({len(obs['mutated'])} call(s) did)"))
+    for m in obs.get("nonnumeric", [])[:1]:
+        out.append(dict(kind="spec", clause="returns-non-numeric", detail=f"a numeric result came back as text/object: {m}"))
+    return out
+
+
+PAIR_TYPES = {"ab": "tuple(ndarray:float64:1d,ndarray:float64:1d)", "cone_ab": "ndarray:float64:1d", "inp_ab": "ndarray:float64:1d",
+              "ci": "tuple(ndarray:float64:1d,ndarray:float64:1d)", "cr_all": "tuple(ndarray:float64:1d,ndarray:float64:1d,ndarray:float64:1d)",
+              "cr_angular_distance": "ndarray:float64:1d", "cr_cone_distance": "ndarray:float64:1d", "cr_in_plane_distance": "ndarray:float64:1d"}
+
+
+def _judge_pair(case, obs, resps):
+    out = _common_findings(obs)
+    if out:
+        return out
     n = len(case["a"])
-    F = lambda key: _fl(obs[key])
     names = ("ab", "ba", "ac", "bc", "l", "r", "aa")
-    for key in names + ("cone_ab", "cone_ba", "inp_ab", "inp_aa", "ci_cone", "ci_inp", "dist_ab"):
-        if len(obs[key]) != n:
-            return [dict(kind="spec", clause="shape", detail=f"{key}: {len(obs[key])} values for {n} pairs")]
+    vec_keys = names + ("cone_ab", "cone_ba", "inp_ab", "inp_aa", "ci_cone", "ci_inp", "dist_ab") + tuple("cr_" + t for t in RTYPES)
+    for key in vec_keys:
+        if obs.get(key) is None or len(obs[key]) != n:
+            return [dict(kind="spec", clause="shape", detail=f"{key}: {None if obs.get(key) is None else len(obs[key])} values for {n} pairs (returned {obs['types'].get(key.split('[')[0])})")]
+    if obs.get("cr_all") is None or any(x is None or len(x) != n for x in obs["cr_all"]):
+        return [dict(kind="spec", clause="shape", detail=f"compare_rotations(rotation_type='all'/default) returned {obs['types'].get('cr_all')} for {n} pairs")]
+    F = lambda key: _fl(obs[key])
     m = {nm: resps[i] for i, nm in enumerate(names)}
     for nm in names:
         if "error" in m[nm]:
@@ -517,14 +971,20 @@ def _judge_pair(case, obs, resps):
     impl = {nm: F(nm) for nm in names}
     mab = model["ab"]
     A, B = _floats(case["a"]), _floats(case["b"])
-    # ---- library probes inside the case: scipy quaternion / composition vs the model
+    mag, zang = _fl(obs["mag"]), _fl(obs["zang"])
+    cr_all = [_fl(x) for x in obs["cr_all"]]
+    how = "rotation_type='all'" if case.get("explicit") else "rotation_type omitted"
+    ang_views = [("angular_distance", impl["ab"]), (f"compare_rotations({how})[0]", cr_all[0]), ("compare_rotations(rotation_type='angular_distance')", F("cr_angular_distance"))]
+    cone_views = [("cone_distance(a,b)", F("cone_ab")), ("cone_distance(b,a)", F("cone_ba")), ("cone_inplane_distance[0]", F("ci_cone")),
+                  (f"compare_rotations({how})[1]", cr_all[1]), ("compare_rotations(rotation_type='cone_distance')", F("cr_cone_distance"))]
+    inp_views = [("inplane_distance", F("inp_ab")), ("cone_inplane_distance[1]", F("ci_inp")), (f"compare_rotations({how})[2]", cr_all[2]),
+                 ("compare_rotations(rotation_type='in_plane_distance')", F("cr_in_plane_distance"))]
     # ---- spec: range, NaN
     for nm in names:
         for i in range(n):
             v = impl[nm][i]
             if math.isnan(v):
-                clause = "angdist-nan"
-                out.append(dict(kind="spec", clause=clause, detail=f"angular_distance[{nm}] row {i} is NaN (model {model[nm][i]:.3e} deg); a={A[i].tolist()} b={B[i].tolist()}"))
+                out.append(dict(kind="spec", clause="angdist-nan", detail=f"angular_distance[{nm}] row {i} is NaN (model {model[nm][i]:.3e} deg); a={A[i].tolist()} b={B[i].tolist()}"))
                 return out
             if not (0.0 <= v <= 180.0):
                 out.append(dict(kind="spec", clause="angdist-range", detail=f"{nm} row {i}: {v}")); return out
@@ -535,8 +995,8 @@ def _judge_pair(case, obs, resps):
         row = chk[i] if isinstance(chk, list) else None
         if not isinstance(row, list):
             out.append(dict(kind="corr", clause="checker", detail=str(chk)[:200])); return out
-        rng_ok, sym_ok, tri_ok, l_ok, r_ok = row
-        d = dict(ab=impl["ab"][i], ba=impl["ba"][i], ac=impl["ac"][i], bc=impl["bc"][i], l=impl["l"][i], r=impl["r"][i])
+        rng_ok, sym_ok, tri_ok, l_ok, r_ok = row     # decided by the Lean verified checker (checkMetric_components)
+        d = dict(ab=float(impl["ab"][i]), ba=float(impl["ba"][i]), ac=float(impl["ac"][i]), bc=float(impl["bc"][i]), l=float(impl["l"][i]), r=float(impl["r"][i]))
         ctx = f"row {i} ({case['tags'][i]}): a={A[i].tolist()} b={B[i].tolist()} dists={d} tol={tol}"
         if not rng_ok:
             out.append(dict(kind="spec", clause="angdist-range", detail=ctx))
@@ -552,16 +1012,41 @@ def _judge_pair(case, obs, resps):
         if impl["aa"][i] > TOL_LOOSE:
             out.append(dict(kind="spec", clause="angdist-zero-for-equal", detail=f"d(a,a)={impl['aa'][i]} {ctx}"))
         kind = case["tags"][i].split("/")[0]
-        if kind == "equal" and impl["ab"][i] > TOL_LOOSE:
-            out.append(dict(kind="spec", clause="angdist-zero-for-equal", detail=f"same rotation, two Euler triples: {ctx}"))
-        mag = _fl(obs["mag"])[i]
-        if mag > 1e-3 and not impl["ab"][i] > 0:
-            out.append(dict(kind="spec", clause="angdist-zero-only-for-equal", detail=f"relative rotation angle {mag} but distance {impl['ab'][i]}: {ctx}"))
-        # equals the rotation angle of the relative rotation (independent: scipy magnitude of a^-1 b)
-        if not _ang_close(impl["ab"][i], mag) and abs(impl["ab"][i] - mag) > (TOL_LOOSE if mag < DEG_NEAR else 1e-7):
-            out.append(dict(kind="spec", clause="angdist-is-relative-rotation-angle", detail=f"|a^-1 b| = {mag} deg: {ctx}"))
+        for label, v in ang_views:
+            if math.isnan(v[i]) or not (0.0 <= v[i] <= 180.0):
+                out.append(dict(kind="spec", clause="angdist-range", detail=f"{label} = {v[i]}: {ctx}")); break
+            if kind == "equal" and v[i] > TOL_LOOSE:
+                out.append(dict(kind="spec", clause="angdist-zero-for-equal", detail=f"{label} = {v[i]} for the same rotation written as two Euler triples: {ctx}")); break
+            if mag[i] > 1e-3 and not v[i] > 0:
+                out.append(dict(kind="spec", clause="angdist-zero-only-for-equal", detail=f"{label}: relative rotation angle {mag[i]} but distance {v[i]}: {ctx}")); break
+            # equals the rotation angle of the relative rotation (independent: scipy magnitude of a^-1 b)
+            if not _ang_is_mag(v[i], mag[i]):
+                out.append(dict(kind="spec", clause="angdist-is-relative-rotation-angle", detail=f"{label} = {v[i]} but |a^-1 b| = {mag[i]} deg: {ctx}")); break
         if out:
             return out
+    # ---- cone: every entry point that returns a cone distance, against the angle between the two z-axes (scipy apply + atan2)
+    for label, v in cone_views:
+        for i in range(n):
+            if math.isnan(v[i]) or not (0 <= v[i] <= 180):
+                out.append(dict(kind="spec", clause="cone-range", detail=f"{label} row {i} ({case['tags'][i]}): {v[i]} (angle between the z-axes: {zang[i]}); a={A[i].tolist()} b={B[i].tolist()}")); return out
+            if not _cone_is_zang(v[i], zang[i]):
+                out.append(dict(kind="spec", clause="cone-is-angle-between-z-axes", detail=f"{label} row {i}: {v[i]} vs angle(z_a,z_b)={zang[i]}; a={A[i].tolist()} b={B[i].tolist()}")); return out
+    # ---- in-plane: range; vanishes for equal orientations (same object AND same rotation written differently)
+    for label, v in inp_views:
+        for i in range(n):
+            if math.isnan(v[i]) or not (0 <= v[i] <= 180):
+                out.append(dict(kind="spec", clause="inplane-range", detail=f"{label} row {i}: {v[i]}")); return out
+            if case["tags"][i].split("/")[0] == "equal" and v[i] > _equal_tol(A[i][1]):
+                out.append(dict(kind="spec", clause="inplane-zero-for-equal",
+                                detail=f"{label} row {i}: {v[i]} for the same rotation given as a={A[i].tolist()} and b={B[i].tolist()} (input form {case['input']}; as_euler phi {b2f(obs['phiA'][i])}, {b2f(obs['phiB'][i])})")); return out
+    for i in range(n):
+        if F("inp_aa")[i] != 0.0:
+            out.append(dict(kind="spec", clause="inplane-zero-for-equal", detail=f"row {i}: inplane(a,a)={F('inp_aa')[i]} a={A[i].tolist()}")); return out
+    # ---- G3: numeric but not the documented float64 arrays
+    for key, exp in PAIR_TYPES.items():
+        got = obs["types"].get(key)
+        if got != exp:
+            out.append(dict(kind="corr", clause="return-type-vs-documented", detail=f"{key}: returned {got}, documented/modelled {exp}")); return out
     # ---- correspondence with the model
     for nm in names:
         for i in range(n):
@@ -572,50 +1057,52 @@ def _judge_pair(case, obs, resps):
         exp = 0.0 if d2m[i] < 10e-8 else d2m[i]
         if abs(d2i[i] - exp) > 1e-12 and not (abs(d2m[i] - 10e-8) < 1e-12):
             out.append(dict(kind="corr", clause="dist2-vs-model", detail=f"row {i}: impl {d2i[i]} model {d2m[i]}")); return out
-    # ---- cone
-    cone_m = _fl(m["ab"]["cone"]); zang = _fl(obs["zang"])
-    for key in ("cone_ab", "cone_ba", "ci_cone"):
-        v = F(key)
+    cone_m = _fl(m["ab"]["cone"])
+    for label, v in cone_views:
         for i in range(n):
-            if math.isnan(v[i]) or not (0 <= v[i] <= 180):
-                out.append(dict(kind="spec", clause="cone-range", detail=f"{key} row {i}: {v[i]}")); return out
-            if not _cone_close(v[i], zang[i]) and abs(v[i] - zang[i]) > 2e-6:
-                out.append(dict(kind="spec", clause="cone-is-angle-between-z-axes", detail=f"{key} row {i}: {v[i]} vs angle(z_a,z_b)={zang[i]}; a={A[i].tolist()} b={B[i].tolist()}")); return out
             if not _cone_close(v[i], cone_m[i]) and abs(v[i] - cone_m[i]) > 2e-6:
-                out.append(dict(kind="corr", clause="cone-vs-model", detail=f"{key} row {i}: impl {v[i]} model {cone_m[i]}")); return out
-    # ---- in-plane
+                out.append(dict(kind="corr", clause="cone-vs-model", detail=f"{label} row {i}: impl {v[i]} model {cone_m[i]}")); return out
     for key in ("phiA", "phiB"):   # library assumption behind inplane_range: as_euler returns phi in [-180, 180]
         v = F(key)
         if len(v) != n or not all(-180.0 <= x <= 180.0 for x in v):
             out.append(dict(kind="corr", clause="as_euler-phi-range", detail=f"{key}: {v.tolist()[:5]}")); return out
     inp_m = resps[7].get("d"); inp_in = _fl(resps[8]["d"]) if "d" in resps[8] else None
-    for key in ("inp_ab", "ci_inp"):
-        v = F(key)
-        for i in range(n):
-            if math.isnan(v[i]) or not (0 <= v[i] <= 180):
-                out.append(dict(kind="spec", clause="inplane-range", detail=f"{key} row {i}: {v[i]}")); return out
+    for label, v in inp_views:
         if inp_m is None or not np.array_equal(v, _fl(inp_m)):   # exact float equality (0.0 == -0.0)
             bad = next((i for i in range(n) if inp_m is None or v[i] != b2f(inp_m[i])), 0)
-            out.append(dict(kind="corr", clause="inplane-vs-model", detail=f"{key} row {bad}: impl {v[bad]} model {b2f(inp_m[bad]) if inp_m else None} (phi {b2f(obs['phiA'][bad])}, {b2f(obs['phiB'][bad])})")); return out
+            out.append(dict(kind="corr", clause="inplane-vs-model", detail=f"{label} row {bad}: impl {v[bad]} model {b2f(inp_m[bad]) if inp_m else None} (phi {b2f(obs['phiA'][bad])}, {b2f(obs['phiB'][bad])})")); return out
     for i in range(n):
-        if F("inp_aa")[i] != 0.0:
-            out.append(dict(kind="spec", clause="inplane-zero-for-equal", detail=f"row {i}: inplane(a,a)={F('inp_aa')[i]} a={A[i].tolist()}")); return out
         # canonical, non-gimbal inputs: as_euler returns the input phi, so the model on the INPUT angles must agree
         can = lambda e: -180 < e[0] < 180 and 1e-3 < e[1] < 180 - 1e-3 and -180 <= e[2] <= 180
         if inp_in is not None and can(A[i]) and can(B[i]):
             dlt = abs(F("inp_ab")[i] - inp_in[i])
             if min(dlt, 360 - dlt) > 1e-8:
                 out.append(dict(kind="corr", clause="inplane-is-phi-difference", detail=f"row {i}: impl {F('inp_ab')[i]} vs folded |phi_a-phi_b| {inp_in[i]}; a={A[i].tolist()} b={B[i].tolist()}")); return out
-    # ---- compare_rotations / cone_inplane_distance return the same numbers
-    cr = obs["cr"]
-    if cr[0] != obs["ab"] or cr[1] != obs["cone_ab"] or cr[2] != obs["inp_ab"] or obs["cr_ang"] != obs["ab"] or obs["ci_cone"] != obs["cone_ab"] or obs["ci_inp"] != obs["inp_ab"]:
-        out.append(dict(kind="spec", clause="compare_rotations-consistent",
-                        detail=f"compare_rotations/cone_inplane_distance differ from angular_distance/cone_distance/inplane_distance on a={A[0].tolist()} b={B[0].tolist()}: "
-                               f"cr0={b2f(cr[0][0])} ab={impl['ab'][0]} cr1={b2f(cr[1][0])} cone={b2f(obs['cone_ab'][0])} cr2={b2f(cr[2][0])} inp={b2f(obs['inp_ab'][0])}"))
+    # ---- compare_rotations against the model's dispatch table (regenerated from the source), every rotation_type
+    cm = resps[11]
+    if not isinstance(cm, list) or len(cm) != 5:
+        out.append(dict(kind="corr", clause="driver", detail=str(cm)[:200])); return out
+    impl_sets = [[cr_all[0], cr_all[1], cr_all[2]], [F("cr_angular_distance")], [F("cr_cone_distance")], [F("cr_in_plane_distance")]]
+    roles = [["ang", "cone", "inp"], ["ang"], ["cone"], ["inp"]]
+    for t, (label, got, rl, mod) in enumerate(zip([how] + RTYPES, impl_sets, roles, cm[:4])):
+        if mod is None or len(mod) != n or any(len(r) != len(rl) for r in mod):
+            out.append(dict(kind="corr", clause="compare_rotations-vs-model", detail=f"{label}: model returns {str(mod)[:80]} (dispatch table of the source changed?)")); return out
+        for j, role in enumerate(rl):
+            for i in range(n):
+                mv = b2f(mod[i][j])
+                ok = _ang_close(got[j][i], mv) if role == "ang" else ((_cone_close(got[j][i], mv) or abs(got[j][i] - mv) <= 2e-6) if role == "cone" else got[j][i] == mv)
+                if not ok:
+                    out.append(dict(kind="corr", clause="compare_rotations-vs-model", detail=f"compare_rotations({label}) value {j} ({role}) row {i}: impl {got[j][i]} model {mv}")); return out
+    bg = obs.get("cr_bogus") or {}
+    if cm[4] is not None or bg.get("etype") != "UserInputError" or not bg.get("in_cryocat"):
+        out.append(dict(kind="corr", clause="compare_rotations-unsupported-type", detail=f"rotation_type={case.get('bogus')!r}: documented UserInputError; implementation: {bg}; model: {'error' if cm[4] is None else 'value'}"))
     return out
 
 
 def _judge_normals(case, obs, resps):
+    out = _common_findings(obs)
+    if out:
+        return out
     n = len(case["ang"])
     if obs["shape"] != [n, 3]:
         return [dict(kind="spec", clause="normals-one-per-orientation", detail=f"shape {obs['shape']} for {n} orientations")]
@@ -634,6 +1121,8 @@ def _judge_normals(case, obs, resps):
     for i in range(n):
         if not dz[i] <= TOL_VEC:
             return [dict(kind="spec", clause="normals-is-z-axis-image", detail=f"row {i}: {rows[i].tolist()} vs R(0,0,1)={z[i].tolist()}; angles={ang[i].tolist()}")]
+    if obs["types"].get("normals") != "ndarray:float64:2d":
+        return [dict(kind="corr", clause="return-type-vs-documented", detail=f"euler_angles_to_normals returned {obs['types'].get('normals')}, documented ndarray (n,3) of floats")]
     if not np.abs(mz - z).max() <= TOL_VEC:
         i = int(np.abs(mz - z).max(axis=1).argmax())
         return [dict(kind="corr", clause="zaxis-scipy-vs-model", detail=f"row {i}: scipy {z[i].tolist()} model {mz[i].tolist()} angles={ang[i].tolist()}")]
@@ -644,44 +1133,84 @@ def _judge_normals(case, obs, resps):
 
 
 def _judge_n2e(case, obs, resps):
+    out = _common_findings(obs)
+    if out:
+        return out
     n = len(case["n"])
     if obs["shape"] != [n, 3] or not obs.get("ang"):
         return [dict(kind="spec", clause="n2e-one-per-normal", detail=f"shape {obs['shape']} for {n} normals")]
     nv = _floats(case["n"])
-    # scaled normalisation (independent of the code's own arithmetic)
-    s = np.abs(nv).max(axis=1, keepdims=True)
-    u = nv / s; u = u / np.linalg.norm(u, axis=1, keepdims=True)
+    zero = np.array([t == "zero" for t in case["tags"]])
+    # scaled normalisation (independent of the code's own arithmetic; exact scaling by the largest component first)
+    with np.errstate(all="ignore"):
+        s = np.abs(nv).max(axis=1, keepdims=True)
+        u = nv / s; u = u / np.linalg.norm(u, axis=1, keepdims=True)
     ang = _floats(obs["ang"]); z = _floats(obs["z"])
     m = resps[0]
     if "error" in m or "error" in resps[1]:
         return [dict(kind="corr", clause="driver", detail=str(m)[:200])]
-    zl = _floats(resps[1]["z"])   # Lean zxz model applied to the implementation's angles
+    zl = _floats(resps[1]["z"])   # Lean zxz model (zaxisOfEuler) applied to the implementation's angles
+    k1 = []
     for i in range(n):
+        if zero[i]:
+            continue
+        state = _sumsq_state(nv[i])
+        bad = None
         if np.isnan(ang[i]).any():
-            return [dict(kind="spec", clause="n2e-zaxis-is-normalised-normal", detail=f"row {i}: normal {nv[i].tolist()} -> angles {ang[i].tolist()}")]
-        if not np.abs(zl[i] - u[i]).max() <= TOL_VEC:
-            return [dict(kind="spec", clause="n2e-zaxis-is-normalised-normal",
-                         detail=f"row {i} ({case['tags'][i]}): normal {nv[i].tolist()} -> angles (phi,theta,psi)={ang[i].tolist()} whose z-axis is {zl[i].tolist()}, expected {u[i].tolist()}")]
-        if not (0 <= ang[i][0] < 360):
+            bad = f"row {i}: normal {nv[i].tolist()} -> angles {ang[i].tolist()}"
+        elif not np.abs(zl[i] - u[i]).max() <= TOL_VEC and not np.abs(z[i] - u[i]).max() <= TOL_VEC:   # Lean evaluation AND scipy evaluation agree it is off
+            bad = (f"row {i} ({case['tags'][i]}): normal {nv[i].tolist()} -> angles (phi,theta,psi)={ang[i].tolist()} whose z-axis is {zl[i].tolist()}, "
+                   f"expected the normalised normal {u[i].tolist()}")
+        if bad and state != "ok":
+            k1.append(dict(kind="spec", clause="n2e-zaxis-is-normalised-normal", known="C06-K1",
+                           detail=bad + f" [x*x+y*y+z*z {state}s in binary64: np.linalg.norm gives {'inf' if state == 'overflow' else '0 or a subnormal'}]"))
+            continue
+        if bad:
+            return [dict(kind="spec", clause="n2e-zaxis-is-normalised-normal", detail=bad)]
+        if state == "ok" and not (0 <= ang[i][0] < 360):
             return [dict(kind="corr", clause="n2e-phi-range", detail=f"row {i}: phi {ang[i][0]}")]
-    if not np.abs(zl - z).max() <= TOL_VEC:
-        i = int(np.abs(zl - z).max(axis=1).argmax())
+    if k1:
+        return k1[:1]
+    if obs["types"].get("n2e") != "ndarray:float64:2d":
+        return [dict(kind="corr", clause="return-type-vs-documented", detail=f"normals_to_euler_angles returned {obs['types'].get('n2e')}, documented ndarray (n,3)")]
+    live = ~zero
+    if live.any() and not np.abs(zl[live] - z[live]).max() <= TOL_VEC:
+        i = int(np.nanargmax(np.where(live, np.abs(zl - z).max(axis=1), -1)))
         return [dict(kind="corr", clause="zaxis-scipy-vs-model", detail=f"row {i}: scipy {z[i].tolist()} model {zl[i].tolist()} angles={ang[i].tolist()}")]
+    # column order: the model reads it off the regenerated table
+    cols = m.get("cols")
+    raw = _floats(obs["raw"])
+    want = ["phi", "psi", "theta"] if case.get("order", "zxz") == "zzx" else ["phi", "theta", "psi"]
+    if cols != want:
+        return [dict(kind="corr", clause="n2e-column-order-vs-model", detail=f"output_order={case.get('order')!r}: model columns {cols}, documented {want}")]
     th, ps = _fl(m["theta"]), _fl(m["psi"])
     mz = _floats(m["z"])
     for i in range(n):
+        if zero[i]:   # outside the statement; the model (0/0) and the code agree on NaN
+            if not (math.isnan(ang[i][1]) and math.isnan(th[i])):
+                return [dict(kind="corr", clause="n2e-zero-normal-vs-model", detail=f"row {i}: zero normal -> impl theta {ang[i][1]}, model {th[i]}")]
+            continue
         dps = abs(ang[i][2] - ps[i]); dps = min(dps, abs(360 - dps))
         near_pole = math.hypot(u[i][0], u[i][1]) < 1e-6
         if abs(ang[i][1] - th[i]) > 1e-8 or (dps > 1e-8 and not near_pole):
             return [dict(kind="corr", clause="n2e-angles-vs-model", detail=f"row {i}: normal {nv[i].tolist()} impl theta,psi={ang[i][1]},{ang[i][2]} model {th[i]},{ps[i]}")]
-        if not np.abs(mz[i] - u[i]).max() <= TOL_VEC:
+        if _sumsq_state(nv[i]) == "ok" and not np.abs(mz[i] - u[i]).max() <= TOL_VEC:   # (outside: binary64 is not the ordered field of n2e_zaxis, see C06-K1)
             return [dict(kind="corr", clause="n2e-model-zaxis", detail=f"row {i}: model z-axis {mz[i].tolist()} expected {u[i].tolist()}")]
     return []
 
 
-def judge(case, obs, resps):
-    if "error" in obs:
-        return [dict(kind="spec", clause="raises", detail=obs["error"] + " @" + obs.get("where", "") + f" kind={case['kind']}")]
+def _judge_mismatch(case, obs, resps):
+    out = _common_findings(obs)
+    if out:
+        return out
+    mod = resps[0].get("ang", "missing")
+    if obs.get("returned") != "None" or mod is not None:
+        return [dict(kind="corr", clause="shape-mismatch-vs-model", detail=f"batches of {len(case['a'])} and {len(case['b'])} rotations: implementation returned {obs.get('returned')}, "
+                     f"model {'None' if mod is None else 'values'} (documented: prints a message and returns None)")]
+    return []
+
+
+def _judge_one(case, obs, resps):
     k = case["kind"]
     if k == "pair":
         return _judge_pair(case, obs, resps)
@@ -689,6 +1218,8 @@ def judge(case, obs, resps):
         return _judge_normals(case, obs, resps)
     if k == "n2e":
         return _judge_n2e(case, obs, resps)
+    if k == "mismatch":
+        return _judge_mismatch(case, obs, resps)
     if k == "qmult":
         r, mr = _floats(obs["r"]), _floats(resps[0]["r"])
         if not np.abs(r - mr).max() <= 1e-13 * max(1.0, np.abs(mr).max()):
@@ -696,17 +1227,37 @@ def judge(case, obs, resps):
     return []
 
 
+def judge(case, obs, resps):
+    if "error" in obs:   # raised outside the guarded library calls: G4 attribution by the framework's `where`
+        if obs.get("where"):
+            return [dict(kind="spec", clause="raises", detail=obs["error"] + " @" + obs.get("where", "") + f" kind={case['kind']}")]
+        return [dict(kind="corr", clause="harness-or-library-raised", detail=obs["error"] + f" (no frame inside cryocat/) kind={case['kind']}")]
+    if case["kind"] == "seq":
+        out, k = [], 0
+        for j, (st, o) in enumerate(zip(case["steps"], obs["steps"])):
+            w = len(_requests_one(st, o))
+            for f in _judge_one(st, o, resps[k:k + w]):   # every call of the sequence is judged as strictly as a first call
+                out.append(dict(f, detail=f"[call sequence on the same caller-owned arrays, step {j + 1} of {len(case['steps'])}] " + f.get("detail", "")))
+            k += w
+            if out:
+                return out
+        return out
+    return _judge_one(case, obs, resps)
+
+
 def nontrivial(case, obs):
     if "error" in obs:
         return False
     k = case["kind"]
+    if k == "seq":
+        return True
     if k == "pair":
-        return len(case["a"]) >= 2 and len({t.split("/")[0] for t in case["tags"]}) >= 2
+        return len(case["a"]) >= 2 and (len({t.split("/")[0] for t in case["tags"]}) >= 2 or len(case["a"]) >= 48)
     if k == "normals":
         return len(case["ang"]) >= 2
     if k == "n2e":
         return any(t.startswith("axis") or t in ("y0", "x0", "nearz") for t in case["tags"])
-    return False
+    return k == "mismatch"
 
 
 def _bucket(v, edges, labels):
@@ -716,58 +1267,99 @@ def _bucket(v, edges, labels):
     return labels[-1]
 
 
+def _stats_one(case, obs, resps, st):
+    k = case["kind"]
+    if k == "pair":
+        n = len(case["a"])
+        st.setdefault("pair_batch", []).append("1" if n == 1 else ("2-8" if n <= 8 else ("9-24" if n <= 24 else ">24")))
+        st.setdefault("pair_row_kind", []).extend(t.split("/")[0] for t in case["tags"])
+        st.setdefault("third_kind", []).extend(t.split("/")[1] for t in case["tags"])
+        st.setdefault("input_form", []).append(case["input"] + ("-single" if case.get("single") else ""))
+        st.setdefault("optional_keywords", []).append("given explicitly" if case.get("explicit") else "omitted (library defaults)")
+        st.setdefault("compare_rotations_types", []).extend(["all" if case.get("explicit") else "<omitted>"] + RTYPES + ["unsupported:" + repr(case.get("bogus", "cone"))])
+        st.setdefault("returned_types", []).extend(sorted(set(obs.get("types", {}).values())))
+        if resps and isinstance(resps[0], dict) and "ang" in resps[0] and obs.get("ab") is not None:
+            ma = _fl(resps[0]["ang"]); ia = _fl(obs["ab"])
+            st.setdefault("distance_deg", []).extend(_bucket(v, [1e-6, 0.1, 10, 90, 179.9, 180], ["<=1e-6", "<=0.1", "<=10", "<=90", "<180", "180"]) for v in ma)
+            dev = float(np.nanmax(np.abs(ma - ia))) if len(ma) == len(ia) else float("nan")
+            st.setdefault("max_abs_dev_ang_deg", []).append(_bucket(dev, [0, 1e-12, 1e-9, 1e-6, 2e-5], ["0", "<=1e-12", "<=1e-9", "<=1e-6", "<=2e-5", ">2e-5"]))
+            asis = _fl(resps[0]["asis"])
+            st["asis_model_nan_rows"] = st.get("asis_model_nan_rows", 0) + int(np.isnan(asis).sum()) + int(np.isnan(_fl(resps[6]["asis"])).sum())
+            z = _fl(obs["zang"])
+            st.setdefault("cone_deg", []).extend(_bucket(v, [1e-6, 90, 179.999999, 180], ["<=1e-6", "<=90", "<180", "180 (antipodal z-axes)"]) for v in z)
+            if obs.get("inp_ab") is not None:
+                eq = [abs(b2f(x)) for x, t in zip(obs["inp_ab"], case["tags"]) if t.startswith("equal/")]
+                if eq:
+                    st.setdefault("inplane_of_equal_rows_deg", []).append(_bucket(max(eq), [0, 1e-12, 1e-9], ["0", "<=1e-12", "<=1e-9", ">1e-9"]))
+        A = _floats(case["a"]); B = _floats(case["b"])
+        st["gimbal_rows"] = st.get("gimbal_rows", 0) + int(sum(1 for e in list(A) + list(B) if abs(math.sin(math.radians(e[1]))) < 1e-9))
+    elif k == "normals":
+        n = len(case["ang"])
+        st.setdefault("normals_batch", []).append("1" if n == 1 else ("2-10" if n <= 10 else ("11-100" if n <= 100 else "101-500")))
+        st.setdefault("normals_1d_input", []).append(bool(case.get("oned")))
+        th = _floats(case["ang"])[:, 1]
+        st.setdefault("normals_theta", []).extend(("in [0,180]" if 0 <= t <= 180 else "outside [0,180]") for t in th[:20])
+    elif k == "n2e":
+        st.setdefault("normal_kind", []).extend(case["tags"])
+        st.setdefault("n2e_input", []).append(("DataFrame" if case.get("df") else "ndarray") + "/" + ("<output_order omitted>" if case.get("order", "zxz") is None else case.get("order", "zxz")))
+        nv = _floats(case["n"])
+        with np.errstate(all="ignore"):
+            mx = np.abs(nv).max(axis=1)
+        st.setdefault("normal_length", []).extend(_bucket(v, [0, 1e-154, 1e-10, 1e-3, 1e3, 1e10, 1e154], ["0", "<=1e-154", "<=1e-10", "<=1e-3", "<=1e3", "<=1e10", "<=1e154", ">1e154"]) for v in mx)
+        st.setdefault("squared_length_in_binary64", []).extend(_sumsq_state(v) for v, t in zip(nv, case["tags"]) if t != "zero")
+    elif k == "mismatch":
+        st.setdefault("mismatch_sizes", []).append(f"{len(case['a'])} vs {len(case['b'])}")
+        st.setdefault("mismatch_returned", []).append(str(obs.get("returned")))
+    if obs.get("mutated"):
+        st.setdefault("inputs_mutated", []).extend(obs["mutated"])
+
+
 def stats(case, obs, resps):
     k = case["kind"]
     st = {"kind": k}
     if "error" in obs:
         st["error"] = obs["error"][:60]
         return st
-    if k == "pair":
-        n = len(case["a"])
-        st["pair_batch"] = "1" if n == 1 else ("2-8" if n <= 8 else ("9-24" if n <= 24 else ">24"))
-        st["pair_row_kind"] = [t.split("/")[0] for t in case["tags"]]
-        st["third_kind"] = [t.split("/")[1] for t in case["tags"]]
-        st["input_form"] = case["input"] + ("-single" if case.get("single") else "")
-        if resps and "ang" in resps[0]:
-            ma = _fl(resps[0]["ang"]); ia = _fl(obs["ab"])
-            st["distance_deg"] = [_bucket(v, [1e-6, 0.1, 10, 90, 179.9, 180], ["<=1e-6", "<=0.1", "<=10", "<=90", "<180", "180"]) for v in ma]
-            dev = float(np.nanmax(np.abs(ma - ia))) if len(ma) == len(ia) else float("nan")
-            st["max_abs_dev_ang_deg"] = _bucket(dev, [0, 1e-12, 1e-9, 1e-6, 2e-5], ["0", "<=1e-12", "<=1e-9", "<=1e-6", "<=2e-5", ">2e-5"])
-            asis = _fl(resps[0]["asis"])
-            st["asis_model_nan_rows"] = int(np.isnan(asis).sum()) + int(np.isnan(_fl(resps[6]["asis"])).sum())
-        A = _floats(case["a"]); B = _floats(case["b"])
-        st["gimbal_rows"] = int(sum(1 for e in list(A) + list(B) if abs(math.sin(math.radians(e[1]))) < 1e-9))
-    elif k == "normals":
-        n = len(case["ang"])
-        st["normals_batch"] = "1" if n == 1 else ("2-10" if n <= 10 else ("11-100" if n <= 100 else "101-500"))
-        st["normals_1d_input"] = bool(case.get("oned"))
-    elif k == "n2e":
-        st["normal_kind"] = case["tags"]
-        st["n2e_input"] = ("DataFrame" if case.get("df") else "ndarray") + "/" + case.get("order", "zxz")
-        nv = _floats(case["n"])
-        st["normal_length"] = [_bucket(v, [1e-10, 1e-3, 1e3, 1e10], ["<=1e-10", "<=1e-3", "<=1e3", "<=1e10", ">1e10"]) for v in np.linalg.norm(nv / np.abs(nv).max(axis=1, keepdims=True), axis=1) * np.abs(nv).max(axis=1)]
+    if k == "seq":
+        st["seq_steps"] = "+".join(s["kind"] for s in case["steps"])
+        st["seq_shared_arrays"] = "same ndarray objects, rewritten in place between the calls"
+        j = 0
+        for s, o in zip(case["steps"], obs["steps"]):
+            w = len(_requests_one(s, o))
+            _stats_one(s, o, resps[j:j + w], st)
+            j += w
+        return st
+    _stats_one(case, obs, resps, st)
     return st
 
 
 def sample_view(case):
     k = case["kind"]
+    if k == "seq":
+        return dict(kind=k, steps=[sample_view(s) for s in case["steps"]])
     if k == "pair":
         return dict(kind=k, n=len(case["a"]), a0=[b2f(x) for x in case["a"][0]], b0=[b2f(x) for x in case["b"][0]], c0=[b2f(x) for x in case["c"][0]],
-                    g=[b2f(x) for x in case["g"]], tags=case["tags"][:6], input=case["input"], single=case.get("single"))
+                    g=[b2f(x) for x in case["g"]], tags=case["tags"][:6], input=case["input"], single=case.get("single"), explicit=case.get("explicit"), bogus=case.get("bogus"))
     if k == "normals":
         return dict(kind=k, n=len(case["ang"]), first=[b2f(x) for x in case["ang"][0]], oned=case.get("oned"))
     if k == "n2e":
-        return dict(kind=k, n=len(case["n"]), normals=[[b2f(x) for x in r] for r in case["n"][:4]], tags=case["tags"][:4], order=case.get("order"), df=case.get("df"))
+        return dict(kind=k, n=len(case["n"]), normals=[[b2f(x) for x in r] for r in case["n"][:4]], tags=case["tags"][:4], order=case.get("order", "zxz"), df=case.get("df"))
+    if k == "mismatch":
+        return dict(kind=k, sizes=[len(case["a"]), len(case["b"])], input=case["input"])
     return dict(kind=k, n=len(case.get("p", [])))
 
 
 def classify(case, obs, finding):
-    return None  # no open known finding for C06 (the NaN defect was repaired by fix: ca2e3ed)
+    """C06-K1: normals_to_euler_angles on a normal whose squared length x*x+y*y+z*z is not a normal binary64 number (|n| beyond ~1.3e154 or
+    below ~1.5e-154): np.linalg.norm overflows to inf (n/inf = 0 -> theta = psi = 0, the z-axis) or underflows to 0 (n/0 = inf/NaN).
+    Only findings the judge tagged for exactly that class carry the id."""
+    return finding.get("known")
 
 
 def probes(rng):
     """library assumptions, probed on fresh random inputs against the Lean model"""
     import warnings
+    from scipy.spatial.transform import Rotation as R
     warnings.filterwarnings("ignore")
     out = []
     n = 200
@@ -792,6 +1384,16 @@ def probes(rng):
         can = [(i, e) for i, e in enumerate(E) if -180 < e[0] < 180 and 1e-3 < e[1] < 180 - 1e-3]
         dphi = max((min(abs(back[i][0] - e[0]), 360 - abs(back[i][0] - e[0])) for i, e in can), default=0.0)
         out.append(dict(name="as_euler returns the input phi for canonical non-gimbal triples", ok=bool(dphi <= 1e-8), detail=f"max dev {dphi:.2e} deg over {len(can)} triples"))
+        # "vanishes for equal orientations" rests on: as_euler is a function of the ROTATION (not of the quaternion's sign, not of the triple it was built from)
+        fold = lambda d: np.minimum(np.abs(d) % 360, 360 - np.abs(d) % 360)
+        neg = np.array(R.from_quat(-r.as_quat()).as_euler("zxz", degrees=True), ndmin=2)
+        dn = float(fold(neg - back).max())
+        out.append(dict(name="as_euler is independent of the sign of the quaternion", ok=bool(dn <= 1e-9), detail=f"max dev {dn:.2e} deg over {len(E)} rotations"))
+        Ee = np.array([_partner(rng, list(e), "equal") for e in E])
+        be = np.array(_rot(Ee).as_euler("zxz", degrees=True), ndmin=2)
+        de = float(fold(be[:, 0] - back[:, 0]).max())
+        out.append(dict(name="as_euler phi is independent of the Euler triple the rotation was built from (incl. gimbal lock, theta outside [0,180])",
+                        ok=bool(de <= 1e-9), detail=f"max dev of phi {de:.2e} deg over {len(E)} rotations"))
     except Exception as e:
         out.append(dict(name="library probes", ok=False, detail=f"{type(e).__name__}: {e}"))
     return out
